@@ -203,6 +203,10 @@ def cli_loop(rec, rnd, tmp, k):
     # two descriptions that clean up to the same merchant NAME but need different patterns
     w1, w2 = rnd.choice(WORDS[:12]).upper(), rnd.choice(WORDS[:12]).upper()
     descs += ['%s #%d %s WA' % (w1, rnd.randint(100, 999), w2), '%s #%d %s WA' % (w1, rnd.randint(1000, 9999), w2)]
+    if rnd.random() < .3:
+        # a statement cell that spans two lines (merchant, then its address line): one description, one suggestion
+        descs.append('%s STORE %d\n123 MAIN ST' % (rnd.choice(WORDS[:12]).upper(), rnd.randint(10, 99)))
+        rec.count('cli_loops_with_a_two_line_description')
     reader = 'amex' if rnd.random() < .25 and all(d == d.strip() and d for d in descs) else 'format'
     rec.count('cli_loops_reader:' + reader)
     # what the user's rules file already holds when the suggestions are appended to it: a description transform (that changes none of these rows),
